@@ -26,7 +26,8 @@ def line(rest, P, E, rows):
     return ("setmatch %d %d %d %s" % (1 if rest else 0, P, E, rs)).rstrip()
 
 
-ELEM_PATS = [("_", lambda x: True), ("3", lambda x: x == 3), ("> 5", lambda x: x > 5), ("== 1", lambda x: x == 1), ("1..=3", lambda x: 1 <= x <= 3), ("!= 7", lambda x: x != 7)]
+ELEM_PATS = [("_", lambda x: True), ("3", lambda x: x == 3), ("> 5", lambda x: x > 5), ("== 1", lambda x: x == 1), ("1..=3", lambda x: 1 <= x <= 3), ("!= 7", lambda x: x != 7),
+             ("5..", lambda x: x >= 5), ("1..3", lambda x: 1 <= x < 3)]
 
 
 def macro_cases(rng, _n):
@@ -37,15 +38,15 @@ def macro_cases(rng, _n):
     import tgen
     cases = []
     k = 0
-    meanings = "(meanings (v %s (int 3)) (v %s (int 5)) (v %s (int 1)) (v %s (int 7)) (r %s (int 1) (int 3) true))" % (
-        tgen.hexs("3"), tgen.hexs("5"), tgen.hexs("1"), tgen.hexs("7"), tgen.hexs("1..=3"))
+    meanings = "(meanings (v %s (int 3)) (v %s (int 5)) (v %s (int 1)) (v %s (int 7)) (r %s (int 1) (int 3) true) (r %s (int 5) none false) (r %s (int 1) (int 3) false))" % (
+        tgen.hexs("3"), tgen.hexs("5"), tgen.hexs("1"), tgen.hexs("7"), tgen.hexs("1..=3"), tgen.hexs("5.."), tgen.hexs("1..3"))
     multisets = [[3, 1], [1, 3], [7, 3, 1], [1, 2, 7], [7, 2, 1], [2, 7, 1], [6, 6], [3], [], [3, 3, 9], [9, 3, 3], [1, 3, 7, 9]]
     combos = []
     for n in (1, 2, 3):
         for c in itertools.product(range(len(ELEM_PATS)), repeat=n):
             combos.append(list(c))
     rng.shuffle(combos)
-    for c in combos[:70]:
+    for c in combos[:110]:
         for rest in (False, True):
             for val in multisets:
                 if not rest and len(val) != len(c) and rng.random() < 0.7:
